@@ -44,4 +44,20 @@ PROPS = {
                  "HRP corruptions and parsing under another network's parameters can leave the code (other checksum family / base58check); there the "
                  "theorem keeps an explicit residual disjunct (C17_hrp_partial)"],
     ),
+    "C06": dict(
+        n_quick=240, n_thorough=3000, audit=8, audit_maxlen=400,
+        rule="addresses: (quick) every witness version 0..16 with program lengths 0..3, 19..21, 31..33, 39..42 and a random quarter of the other lengths, "
+             "network and blinding drawn at random, plus n random well-formed addresses of every kind incl. the crate's constructors; (thorough) the full "
+             "lattice 3 networks x blinded x {p2pkh, p2sh, version 0..16 x length 0..42, versions 17/24/31}; near-miss strings: upper/mixed case, one "
+             "character replaced/dropped/appended, wrong checksum variant, other checksum family, versions 17..31, bad/missing blinding key, bad padding, "
+             "foreign HRP, over-long, base58 with wrong length/prefix/inner prefix/blinder/checksum, > 150 characters; distinct = distinct case line; "
+             "non-trivial = non-empty string",
+        trusted=["the bech32/bech32m constants and limits are transcribed by hand from the upstream bech32-0.11.1 crate; blech32 constants, witness-length "
+                 "limits, prefixes and HRPs are re-read from /repo/src on every run",
+                 "base58 conversion is modelled with unbounded N (value of the digit string / minimal digits) instead of the crate's carry loops; 8<->5 bit "
+                 "regrouping over bit lists; SHA-256d and secp256k1 key validity are parameters in every theorem (runs: Base/Sha256.v, Base/SecpField.v: "
+                 "prefix 02/03, x < p, x^3+7 a quadratic residue by Jacobi symbol)",
+                 "the harness's independent encoders are the bech32 crate's iterator API (with_checksum/with_witness_version) and base58::encode_check"],
+        assumes=["strings are byte strings; every byte >= 128 is rejected where the Rust code rejects a non-ASCII char"],
+    ),
 }
